@@ -40,8 +40,12 @@ def paginate_or_redirect_stdout(outputstream):
     `less` if PAGER environment variable is not defined.
     """
 
+    if outputstream is None:
+        # the standard output is closed: as argparse does for `--help`
+        outputstream = sys.stderr
+
     with redirect_stdout(outputstream):
-        use_pager = sys.stdout.isatty()
+        use_pager = sys.stdout is not None and sys.stdout.isatty()
         pager = os.getenv('PAGER', 'less')
 
         if use_pager:
